@@ -45,6 +45,16 @@ func init() {
 		e.assumeIn(c.st, implies(eq(app("slen", va.S), "1"), eq(e.bvOf(c.st, r), app("keccak1", e.bvOf(c.st, el)))))
 		return r
 	}
+	// sha256.Sum256(b): an uninterpreted function of the content of b (sha256(b) in contracts); the [32]byte result's
+	// content is that value
+	libSpecs["crypto/sha256.Sum256"] = func(c *callCtx) Val {
+		e := c.e()
+		e.declAddr()
+		e.vc.declFun("sha256f", []string{"BV"}, "BV")
+		arr := e.vc.fresh("sha", e.vc.sortOf(c.rt))
+		e.assumeIn(c.st, eq(app("bv_of", arr, "0", "32"), app("sha256f", e.bvOf(c.st, c.args[0]))))
+		return c.ret(arr)
+	}
 	libSpecs[auth+".NewModuleAddressOrBech32Address"] = modAddr
 	libSpecs[auth+".NewModuleAddress"] = modAddr
 	libSpecs["("+sdkT+".AccAddress).String"] = func(c *callCtx) Val {
